@@ -1,4 +1,5 @@
 """Unit-level properties: C09 (FSM vs diagram), C10 (RDH rules), C11 (word sanity), C12 (cutter)."""
+import shutil
 import os, struct, sys
 import fplib as L
 import fpgen as G
@@ -130,12 +131,14 @@ def run_c12(ck, ctx):
     counts = list(range(0, 24)) + [99, 100, 101, 511, 512, 700] if tier == 'quick' else list(range(0, 701))
     for n in counts:
         for fmt in (0, 2):
-            for pad in ([None] + list(range(0, 41)) if fmt == 2 else [None]):
+            for pad in ([None] + list(range(0, 41)) if fmt == 2 else [None, 1, 15, 16, 17, 32, 40]):
                 if tier == 'quick' and n > 24 and pad not in (None, 0, 9, 10, 15, 16): continue
                 words = [rword() for _ in range(n)]
                 if fmt == 0:
-                    p = b''.join(w + bytes(6) for w in words)
-                    exp = words if n > 0 else None
+                    # the padding limit holds for every payload: 16-byte slots followed by a run of 0xFF (pad = None: none)
+                    k = 0 if pad is None else pad
+                    p = b''.join(w + bytes(6) for w in words) + b'\xff' * k
+                    exp = 'err' if k > 15 else ((words if n > 0 else None) if k == 0 else None)
                 else:
                     k = (-10 * n) % 16 if pad is None else pad
                     # the layout's own condition: second word slot must not look like format-0 padding
@@ -371,6 +374,86 @@ def run_c09(ck, ctx):
             if not want <= got:
                 ck.violation('cli_illegal', {'what': 'the same illegal word repeated in the same slot is not reported at every occurrence', 'slot': slot,
                                              'want': sorted(want), 'got': sorted(got), 'input_hex': data.hex(), 'args': ' '.join(mode)})
+    run_c09_sequences(ck, ctx)
+
+
+def diagram_first_illegal(words_per_packet):
+    """independent reading of the documented diagram (continuous mode), used only up to the first illegal word of a link:
+    returns (packet index, word index) of the first word whose identifier is not legal in the current diagram state, or None.
+    States: IHW (start / after DDW0), TDH (after IHW), CHOICE (after no-data TDH or TDT packet_done=1: TDH | IHW | DDW0),
+    DATA (after TDH with data: data word | CDW | TDT), cIHW (after TDT packet_done=0), cTDH, cDATA."""
+    is_data = lambda i: 0x20 <= i <= 0x28 or 0x40 <= i <= 0x46 or 0x48 <= i <= 0x4E or 0x50 <= i <= 0x56 or 0x58 <= i <= 0x5E
+    st = 'IHW'
+    for pi, ws in enumerate(words_per_packet):
+        for wi, w in enumerate(ws):
+            i = w[9]; nd = (w[1] >> 5) & 1; pd = w[8] & 1
+            if st == 'IHW':
+                if i != 0xE0: return pi, wi
+                st = 'TDH'
+            elif st == 'TDH':
+                if i != 0xE8: return pi, wi
+                st = 'CHOICE' if nd else 'DATA'
+            elif st == 'CHOICE':
+                if i == 0xE8: st = 'CHOICE' if nd else 'DATA'
+                elif i == 0xE0: st = 'TDH'
+                elif i == 0xE4: st = 'IHW'
+                else: return pi, wi
+            elif st in ('DATA', 'cDATA'):
+                if is_data(i) or i == 0xF8: pass
+                elif i == 0xF0: st = 'CHOICE' if pd else 'cIHW'
+                else: return pi, wi
+            elif st == 'cIHW':
+                if i != 0xE0: return pi, wi
+                st = 'cTDH'
+            elif st == 'cTDH':
+                if i != 0xE8: return pi, wi
+                st = 'cDATA'
+    return None
+
+
+def run_c09_sequences(ck, ctx):
+    """word sequences over consecutive packets of a link, mutated at word level (insert / replace / delete / duplicate words of
+    every kind, anywhere — also a data word after the packet was closed, also in a packet whose RDH carries a sanity fault)"""
+    import checks_link as CL
+    R, tier = ctx['R'], ctx['tier']
+    kinds = [lambda: G.ihw(0x3FFF), lambda: G.tdh(trig=3, orbit=R.getrandbits(16), nodata=R.choice([0, 1])), lambda: G.tdt(R.choice([0, 1])),
+             lambda: G.ddw0(), lambda: G.dw(R.choice([0x20, 0x22, 0x43, 0x5E]), bytes(R.getrandbits(8) for _ in range(9))),
+             lambda: G.cdw(user=R.getrandbits(48), index=0), lambda: bytes(R.getrandbits(8) for _ in range(9)) + bytes([R.choice([0x13, 0x99, 0xE1, 0x00, 0x47])])]      # (no 0xFF identifier: as last word it merges with the padding run, C12's business)
+    jobs = []
+    for si in range(24 if tier == 'quick' else 400):
+        pk, meta = G.conforming_stream(R, nlinks=1, max_hbf=R.randint(2, 4), hits=False, df=R.choice([0, 2]))
+        cand = [i for i, p in enumerate(pk) if p.words]
+        for _ in range(R.randint(1, 3)):
+            i = R.choice(cand); ws = pk[i].words
+            op = R.choice(['insert', 'insert', 'replace', 'delete', 'dup'])
+            k = R.randrange(len(ws) + (1 if op == 'insert' else 0)) if ws else 0
+            if op == 'insert': ws.insert(k, R.choice(kinds)())
+            elif op == 'replace' and ws: ws[k] = R.choice(kinds)()
+            elif op == 'delete' and len(ws) > 1: del ws[k]
+            elif op == 'dup' and ws: ws.insert(k, ws[k])
+            if R.random() < 0.35 and i > 0:          # the same packet also has an RDH sanity fault
+                key, val = R.choice([('res0', 1), ('sysid', 33), ('prio', 1), ('bc', 0xdec), ('dw', 3)])
+                pk[i].rdh[key] = val
+        data = G.encode(pk)
+        for m in (('sanity', 'its'), ('all', 'its')):
+            jobs.append((si, m, pk, data))
+    res = L.pmap(lambda j: L.run_cli(CL.mode_args(j[1]), j[3]), jobs)
+    reqs = []
+    for (si, m, pk, data), r in zip(jobs, res):
+        ck.case(('seq', si, m)); ck.count('seq_streams')
+        reqs.append(f'run {CL.mode_tok(m)} data={G.hexs(data)}')
+        first = diagram_first_illegal([p.words for p in pk])
+        if first is None or r.stats is None: continue
+        pi, wi = first
+        offs = G.offsets(pk)
+        at = offs[pi] + 64 + wi * (16 if pk[pi].fmt == 0 else 10)
+        ck.count('seq_streams_with_illegal_word')
+        if not any(e[0] == at and e[2] is not None for e in r.errors):
+            ck.violation('cli_illegal', {'what': 'the first word of the link that is illegal in the documented state diagram is not reported at that word',
+                                         'packet': pi, 'word_index': wi, 'offset': at, 'word': pk[pi].words[wi].hex(), 'args': ' '.join(CL.mode_args(m)),
+                                         'errors': sorted((e[0], e[1]) for e in r.errors)[:12], 'input_hex': data.hex()})
+    dis = CL.compare_model(ck, 'run_word_sequences', jobs, res, reqs)
+    report_dis(ck, 'run_word_sequences', dis)
 
 
 # =============================================================== C10
@@ -501,6 +584,44 @@ def run_c10(ck, ctx):
     ck.case(('cli_e10',))
     if (offs[k], 'E10') not in {(e[0], e[1]) for e in r.errors} or any(e[1] == 'E10' and e[0] != offs[k] for e in r.errors):
         ck.violation('cli_e10', {'what': 'RDH sanity fault not reported exactly at its RDH offset', 'offset': offs[k], 'errors': r.errors[:10], 'input_hex': data.hex()})
+    # CLI matrix: the sanity rule as the *tool* applies it — command x target x custom-checks file. The expected header id is the
+    # configured `rdh_version` when a custom-checks file sets one, else the link's first; the ITS system id is required exactly when a
+    # target is selected. (The in-process runs above construct the validator directly; this part covers how it is configured.)
+    wd = os.path.join(L.CACHE, 'tmp', f'c10_{os.getpid()}'); os.makedirs(wd, exist_ok=True)
+    jobs = []
+    for rep in range(2 if tier == 'quick' else 10):
+        f = base_rdh(R); f.update(link=1, fee=0x1000 | 3, sysid=32, page=0, stop=0)
+        hdrs = []
+        for i in range(8):      # RDH-only packets, HBFs of two pages; one deviation in the 4th..7th header
+            g = dict(f); g.update(page=i % 2, stop=i % 2, orbit=(f['orbit'] + i // 2) & 0xFFFFFFFF, pkt=i)
+            hdrs.append(g)
+        dev_i = R.randint(3, 7)
+        key, val = R.choice([('sysid', 33), ('sysid', 0), ('ver', f['ver'] ^ 1), ('res0', 1), ('prio', 1), ('hsize', 0x41), ('bc', 0xdec), ('dw', 2), (None, None)])
+        if key: hdrs[dev_i][key] = val
+        data = b''.join(G.rdh_bytes(g) for g in hdrs)
+        for cmd in (['check', 'sanity'], ['check', 'all']):
+            for tgt in ([], ['its']):
+                for tname, toml in (('none', None), ('ver', f'rdh_version = {f["ver"]}\n'), ('ver_other', f'rdh_version = {f["ver"] ^ 1}\n'), ('cdps', 'cdps = 8\n')):
+                    jobs.append((rep, cmd + tgt, tname, toml, data, hdrs, f['ver']))
+
+    def job(j):
+        rep, args, tname, toml, data, hdrs, ver = j
+        extra = []
+        if toml is not None:
+            pth = os.path.join(wd, f'c_{abs(hash((rep, tuple(args), tname)))}.toml'); open(pth, 'w').write(toml); extra = ['-c', pth]
+        return L.run_cli(args + extra + ['-E', '7'], data)
+    for j, r in zip(jobs, L.pmap(job, jobs)):
+        rep, args, tname, toml, data, hdrs, ver = j
+        ck.case(('cli_matrix', rep, tuple(args), tname)); ck.count('cli_matrix_' + tname)
+        its = 'its' in args
+        expect_id = ver if tname in ('none', 'cdps') else (ver if tname == 'ver' else ver ^ 1)
+        want = sorted(64 * i for i, g in enumerate(hdrs) if not spec_rdh_sane(G.rdh_bytes(g), expect_id, its))
+        got = sorted(e[0] for e in r.errors if e[1] == 'E10')
+        if r.stats is None or got != want or (r.exit == 7) != bool(r.stats['error_stats']['total_errors']):
+            ck.violation('cli_matrix', {'what': 'RDH sanity errors of the tool differ from the documented rule (expected header id: configured rdh_version else the first; ITS system id iff a target is selected)',
+                                        'args': args, 'custom_checks': toml, 'expected_E10_offsets': want, 'reported_E10_offsets': got, 'exit': r.exit,
+                                        'stderr': L.ANSI.sub('', r.stderr)[-300:], 'input_hex': data.hex()})
+    shutil.rmtree(wd, ignore_errors=True)
 
 
 CHECKS = {
